@@ -6,6 +6,7 @@ pub mod c01;
 pub mod c02;
 pub mod c03;
 pub mod c04;
+pub mod c05;
 pub mod c08;
 pub mod c20;
 pub mod selftest;
@@ -22,5 +23,5 @@ pub const STUB: &[&str] = &[
 ];
 
 pub fn all() -> Vec<PropSpec> {
-    vec![c01::spec(), c02::spec(), c03::spec(), c04::spec(), c08::spec(), c20::spec()]
+    vec![c01::spec(), c02::spec(), c03::spec(), c04::spec(), c05::spec(), c08::spec(), c20::spec()]
 }
